@@ -21,7 +21,7 @@ ASSUMPTIONS = ["CPython float/Fraction arithmetic", "nvmon.ref exact reference m
 FLOORS = {'quick': {'single': 1500, 'list': 300, 'ders0': 300, 'grid_point': 1000, 'grid_shape': 150, 'meval': 2000,
                     'corner': 300},
           'thorough': {'single': 15000, 'grid_point': 10000, 'meval': 20000}}
-MANDATORY_TAGS = ['square', 'large', 'ss:delta>2/3', 'container-grid', 'pdim3', 'rational', 'u:knot_full', 'u:knot', 'u:start', 'u:end', 'kv:unclamped', 'kv:range',
+MANDATORY_TAGS = ['partial:zero-start-or-stop', 'partial:start==stop', 'square', 'large', 'ss:delta>2/3', 'container-grid', 'pdim3', 'rational', 'u:knot_full', 'u:knot', 'u:start', 'u:end', 'kv:unclamped', 'kv:range',
                   'ss:distinct', 'ss:one-direction', 'route:list', 'span:binary', 'dim4']
 TECHNIQUE = ("runtime monitoring: exact-arithmetic post-condition on every evaluators.*.evaluate() call (M-eval hook) and on "
              "each public evaluation entry point, under a class-enumerating seeded workload")
@@ -251,6 +251,19 @@ def check(case, ctx):
         x, y = sorted([rng.uniform(a, b), rng.uniform(a, b)])
         if y - x < 1e-3 * (b - a):
             x, y = a, b
+        r_ = rng.random()
+        if r_ < 0.25 and a <= 0.0 <= b and a < b:
+            # the value 0.0 itself as a start or a stop (a legitimate parameter like any other; it is falsy in Python)
+            if 0.0 < b and (a == 0.0 or rng.random() < 0.5) and 0.0 < y:
+                x = 0.0
+            elif a < 0.0:
+                y = 0.0
+                x = min(x, a + 0.5 * (0.0 - a))
+            ctx.tag('partial:zero-start-or-stop')
+        elif r_ < 0.33:
+            # an iso-parametric slice: start == stop (at a domain end or inside)
+            x = y = rng.choice([a, b, x])
+            ctx.tag('partial:start==stop')
         sub.append((x, y))
     if pdim == 1:
         o.evaluate(start=sub[0][0], stop=sub[0][1])
@@ -261,18 +274,19 @@ def check(case, ctx):
                    stop_w=sub[2][1])
     pts = o.evalpts
     ss = [o.sample_size] if pdim == 1 else list(o.sample_size)
+    per = [meval.grid_params(a, b, w) for (a, b), w in zip(sub, ss)]
+    cnt_ = [len(pp) for pp in per]
     total = 1
-    for w in ss:
+    for w in cnt_:
         total *= w
     sub_pts = [list(p) for p in pts]
-    if ctx.check(len(pts) == total, 'grid/size', 'evaluate(start,stop) produced %d points for sample sizes %r' % (len(pts), ss),
-                 what='grid_shape'):
-        per = [meval.grid_params(a, b, w) for (a, b), w in zip(sub, ss)]
+    if ctx.check(len(pts) == total, 'grid/size', 'evaluate(start=%r, stop=%r) produced %d points for sample sizes %r (expected %r per direction)'
+                 % ([x_ for x_, _ in sub], [y_ for _, y_ in sub], len(pts), ss, cnt_), what='grid_shape'):
         for f in sorted(set([0, total - 1, rng.randrange(total), rng.randrange(total)])):
             rem, ii = f, []
             for d in reversed(range(pdim)):
-                ii.append(rem % ss[d])
-                rem //= ss[d]
+                ii.append(rem % cnt_[d])
+                rem //= cnt_[d]
             ii.reverse()
             prm = [per[d][ii[d]] for d in range(pdim)]
             if any(0 < abs(prm[d] - kk) < F(1, 10 ** 6) for d in range(pdim) for kk in set(S.U[d])):
@@ -282,6 +296,9 @@ def check(case, ctx):
     # ---- a plain evaluate() after the partial one samples the whole domain again ---------------------------------------------------------
     o.evaluate()
     pts = o.evalpts
+    total = 1
+    for w in ss:
+        total *= w
     if ctx.check(len(pts) == total, 'grid/size', 'evaluate() after a partial-range evaluate produced %d points for sample sizes %r' % (len(pts), ss),
                  what='grid_shape'):
         c0 = S.point([a for a, b in doms])
